@@ -22,7 +22,7 @@ ID = "C11"
 LEVEL = "exploration"
 RULE = ("Hypothesis rule-based state machine: set preset / custom table (from a per-run pool of 12 tables, or brand new), "
         "rejected updates, caller-side mutation of every returned or passed object and of attribution lists, decode / encode "
-        "with any flags, cache-filling bursts of up to 300 never-seen symbols. At every translation: decoder(x) must equal (a) "
+        "with any flags (incl. compatible=True on pre-v2 spellings, whose plain decoding must stay what a fresh interpreter gives), cache-filling bursts of up to 300 never-seen symbols. At every translation: decoder(x) must equal (a) "
         "the molecule R2 derives under the model's table and (b) the string a fresh interpreter (subprocess, other "
         "PYTHONHASHSEED, cold caches) returned for (table, x); encoder(s, strict=False) must equal what a fresh default-state "
         "interpreter returned for s whatever the table; repeated calls agree. quick: one subprocess per pool table; thorough: "
@@ -41,6 +41,10 @@ SENSITIVE = ["[Xe-2][Branch1][C][F][Branch1][C][F][Branch1][C][F][Branch1][C][F]
              "[C][C][C][Ring1][Ring1]" * 103, "[C][C][Ring1][C]" + "[C][C][C][Ring1][Ring1]" * 101 + "[C][Ring3][C][Ring1][=Branch1]",
              "[C][C][C][Ring1][Ring1]" * 3]
 
+# pre-v2 spellings: decoder(x) must reject them (where reached) whatever compatible=True calls came before
+LEGACY = ["[C][C@@Hexpl][Branch1_1][C][F][Cl]", "[Fe++expl][=N+expl][C]", "[C][C][C][Expl=Ring1][C]", "[C][Branch1_2][C][=O][O-expl]",
+          "[C][F][Cexpl]", "[NHexpl][C][Expl#Ring1]", "[C][=N+expl][Branch1_3][C][#N][O]"]
+
 _POOL = {}
 
 
@@ -54,14 +58,16 @@ def pools(seed, tier):
         t = T.gen_valid_table(ch, allow_preset_name=False)
         t[ch.pick(["Xe-2", "Fe+3", "C", "N+1", "S", "Cl"])] = ch.pick([0, 1, 2, 3, 5, 7])
         tables.append(t)
-    selfies = list(SENSITIVE)
+    selfies = list(SENSITIVE) + list(LEGACY)
     while len(selfies) < 60:
         t = tables[ch.below(len(tables))]
         toks = G.gen_live(ch, T.table_dict(t), max_len=25, unknown_percent=ch.pick([0, 0, 3]))
         s = "".join(toks)
         if s and s not in selfies:
             selfies.append(s)
-    smiles = ["c1ccccc1", "C(=O)O", "[C@@H](F)(Cl)Br", "C1CC1", "F/C=C/F", "[nH]1cccc1", "O=S(=O)(O)O", "C[N+](C)(C)C", "[Fe+3]", "C#N.[Na+]"]
+    smiles = ["c1ccccc1", "C(=O)O", "[C@@H](F)(Cl)Br", "C1CC1", "F/C=C/F", "[nH]1cccc1", "O=S(=O)(O)O", "C[N+](C)(C)C", "[Fe+3]", "C#N.[Na+]",
+              # accepted under some pool tables only: the strict outcome must follow the table in force
+              "CN(C)(C)(C)C", "O=Cl(=O)(=O)O", "FS(F)(F)(F)(F)F", "c1ccn(=O)cc1", "C[Xe-2](F)(F)(F)F", "O=P(O)(O)O"]
     corpus = G.corpus_smiles()
     while len(smiles) < 60:
         if ch.bool(50):
@@ -75,7 +81,13 @@ def pools(seed, tier):
         if s not in smiles:
             smiles.append(s)
     fresh_dec = []
+    fresh_compat = []
     hs = 1 + h64("hs/%d" % seed) % 4000000000
+    fresh_strict = []
+    for k, t in enumerate(tables):
+        out = _fresh(dict(table=t, decode_compatible=LEGACY, encode_strict=smiles), hs + 50 + k)
+        fresh_compat.append(out["dec_compat"])
+        fresh_strict.append(out["enc_strict"])
     if tier == "quick":
         for k, t in enumerate(tables):
             out = _fresh(dict(table=t, decode=selfies), hs + k)
@@ -87,7 +99,7 @@ def pools(seed, tier):
                 d.update(_fresh(dict(table=t, decode=[x]), hs + 100 * k + j)["dec"])
             fresh_dec.append(d)
     fresh_enc = _fresh(dict(table=None, encode=smiles), hs + 77)["enc"]
-    p = dict(tables=tables, selfies=selfies, smiles=smiles, fresh_dec=fresh_dec, fresh_enc=fresh_enc)
+    p = dict(tables=tables, selfies=selfies, smiles=smiles, fresh_dec=fresh_dec, fresh_enc=fresh_enc, fresh_compat=fresh_compat, fresh_strict=fresh_strict)
     _POOL[key] = p
     return p
 
@@ -239,13 +251,17 @@ def apply_step(state, step, info):
                 if f is not None:
                     return f
         # (b) the fresh interpreter's answer
+        if legacy:
+            cl.add("compatible_decode_of_legacy_string")
+        elif "expl" in x or "Expl" in x or "_" in x:
+            cl.add("plain_decode_of_legacy_string")
         if state.table_id is not None:
-            want = pool["fresh_dec"][state.table_id].get(x)
+            want = (pool["fresh_compat"] if legacy else pool["fresh_dec"])[state.table_id].get(x)
             if want is not None and want != got:
                 return Fail("decode:differs_from_fresh_interpreter", selfies=x[:300], fresh=want, got=got, table_id=state.table_id)
             cl.add("checked_against_fresh_interpreter")
         # (c) repeated calls agree
-        key = (jdump(state.table), "d", x)
+        key = (jdump(state.table), "d", x, legacy)
         if key in state.seen and state.seen[key] != got:
             return Fail("decode:repeated_call_differs", selfies=x[:300], first=state.seen[key], now=got)
         state.seen[key] = got
@@ -275,8 +291,18 @@ def apply_step(state, step, info):
         if strict:
             if got[0] == "ok" and got != want:
                 return Fail("encode:strict_result_differs_from_fresh_interpreter", smiles=s[:300], fresh=want, got=got)
+            if state.table_id is not None:
+                ws = pool["fresh_strict"][state.table_id].get(s)
+                if ws is not None and ws != got:
+                    return Fail("encode:strict_outcome_differs_from_fresh_interpreter", smiles=s[:300], fresh=ws, got=got, table_id=state.table_id)
+                cl.add("strict_encode_checked_against_fresh_interpreter")
         elif got != want:
             return Fail("encode:differs_from_fresh_interpreter", smiles=s[:300], fresh=want, got=got, table=C12._short(state.table))
+        # the same call again (attribute flag or not) gives the same translation / the same rejection
+        key = (jdump(state.table), "e", s, strict)
+        if key in state.seen and state.seen[key] != got:
+            return Fail("encode:repeated_call_differs", smiles=s[:300], first=state.seen[key], now=got, table=C12._short(state.table))
+        state.seen[key] = got
         return None
     raise ValueError(op)
 
@@ -315,6 +341,10 @@ class Machine(S.HistoryMachine):
     @rule(i=st.integers(0, 59))
     def decode_sensitive(self, i):
         self.do(dict(op="decode", i=i % len(SENSITIVE)))
+
+    @rule(i=st.integers(0, 59), compatible=st.booleans(), attribute=st.booleans())
+    def decode_legacy(self, i, compatible, attribute):
+        self.do(dict(op="decode", i=len(SENSITIVE) + i % len(LEGACY), compatible=compatible, attribute=attribute))
 
     @rule(i=st.integers(0, 59), strict=st.booleans(), attribute=st.booleans())
     def encode(self, i, strict, attribute):
